@@ -405,6 +405,15 @@ fn paths(ctx: &Ctx, rep: &mut Report) {
 // ---------------------------------------------------------------------------
 // 6: setter histories
 // ---------------------------------------------------------------------------
+/// A response object around a given message (no struct literal: the type may grow fields).
+fn response_with(message: Packet) -> CoapResponse {
+    let mut con = Packet::new();
+    con.header.set_type(coap_lite::MessageType::Confirmable);
+    let mut r = CoapResponse::new(&con).expect("a response is prepared for a confirmable message");
+    r.message = message;
+    r
+}
+
 #[derive(Clone, Debug, PartialEq)]
 enum H {
     SetCf(u16),
@@ -482,7 +491,7 @@ fn histories(ctx: &Ctx, rep: &mut Report) {
                             let _ = rq.message.add_option(CoapOption::UriPath, p.as_bytes().to_vec());
                         }
                         H::SetStatus(b) => {
-                            let mut rs = CoapResponse { message: rq.message.clone() };
+                            let mut rs = response_with(rq.message.clone());
                             if let MessageClass::Response(s) = MessageClass::from(*b) {
                                 rs.set_status(s);
                             }
@@ -499,7 +508,7 @@ fn histories(ctx: &Ctx, rep: &mut Report) {
                         }
                     }
                 }
-                let rs = CoapResponse { message: rq.message.clone() };
+                let rs = response_with(rq.message.clone());
                 let wire = Packet::from_bytes(&rq.message.to_bytes().unwrap()).unwrap();
                 (
                     rq.message.get_content_format().map(|c| usize::from(c) as u16),
